@@ -6,10 +6,10 @@ from ..build import params, construct, TABLE_KEY
 from .c01 import phase_args, PHASE_MODES
 
 
-def u_energy(ctx, kind, form="const", phase="none"):
+def u_energy(ctx, kind, form="const", phase="none", loss=False):
     """One component: (vo, ii) produced by the component's own laws from (vi, io); then the real _solv_pwr_loss
     called exactly the way solve() calls it (scalar vi, no pstate)."""
-    P = params(ctx, kind, "X", form)
+    P = params(ctx, kind, "X", form, loss=loss)
     try:
         comp = construct(kind, "X", P)
     except ValueError:
@@ -87,8 +87,6 @@ META = {
 def instances(tier):
     out = []
     for kind in spec.KINDS:
-        if kind == "PMux":
-            kindforms = ["const"]
         forms = ["const"]
         if kind in TABLE_KEY and kind != "PMux":
             forms += ["t1x2"] if tier == "quick" else ["t1x1", "t1x2", "t1x3"]
@@ -101,7 +99,9 @@ def instances(tier):
                 if kind == "PMux":
                     continue
                 out.append(Instance("C02", "c02:u_energy", dict(kind=kind, form=form, phase=ph), cover=["evaluated"],
-                                    weight=5 if "t2" in form else 1))
+                                    weight=5 if "t2" in form else (30 if form == "t1x3" else 1), time_limit=3000 if form == "t1x3" else None))
+                if kind in spec.LOADS:  # the same load configured as a loss (powered, dead, switched off)
+                    out.append(Instance("C02", "c02:u_energy", dict(kind=kind, form=form, phase=ph, loss=True), cover=["evaluated"]))
     from ..shapes import curated
     for sid, shape in curated().items():
         if sid in ("neg-src-rs",):
@@ -109,10 +109,22 @@ def instances(tier):
         names = [n["name"] for n in shape["nodes"] if n["kind"] != "Source"]
         out.append(Instance("C02", "sys_common:s_run", dict(shape=shape, oracle="c02", opts={"rt": names[-2:], "ta": True}),
                             name="S/" + sid, uf=True, cover=["solved"], weight=20, max_paths=3000))
+    # phased systems with thermal resistances: sleeping elements, dead branches, loads configured as a loss
+    from ..shapes import N, S, phase_shapes
+    ph = ["a", "b"]
+    phs = {
+        "loss-loads-dead-branch": (S(N("S", "Source"), N("G", "LinReg", "S"), N("W", "PSwitch", "S", phases=["a"]),
+                                     N("L1", "RLoad", "W", loss=True), N("L2", "PLoad", "W", loss=True), phases=ph), ["G", "L1", "L2"]),
+        "conv-inactive": (phase_shapes()["conv-inactive"], ["C", "L1"]),
+    }
+    if tier == "thorough":
+        phs["loads-phased"] = (phase_shapes()["loads-phased"], ["C", "L1", "L3"])
+        phs["mux-inactive-first-dead"] = (phase_shapes()["mux-inactive-first-dead"], ["M", "W"])
+    for sid, (shape, rts) in phs.items():
+        out.append(Instance("C02", "sys_common:s_run", dict(shape=shape, oracle="c02", opts={"rt": rts, "ta": True}),
+                            name="S/ph/" + sid, uf=True, cover=["solved"], weight=25, max_paths=4000))
     from ..shapes import variants as _variants
     for sid, shape in _variants().items():
-        if None is not None and sid not in None:
-            continue
         out.append(Instance("C02", "sys_common:s_run", dict(shape=shape, oracle="c02"), name="S/var/" + sid, uf=True, cover=["solved"], weight=20))
     if tier == "thorough":
         from ..shapes import pair_cover, enumerate_trees
